@@ -552,6 +552,14 @@ theorem repo_no_race_of_conformance_tokens {tr : List Ev} (hwf : WF tr)
     exact List.mem_filter.2 ⟨hh, by simpa using hnt⟩
   exact repo_real_locks_held hwf (hconf t) (hasm t) hi (hrows i t a hi) hre h hreal
 
+/-- No `Lock`/`Unlock` of the tracked code operates on a by-value copy of its mutex (a method with a value receiver, a
+    struct passed by value: `func (h ReferenceHash) Balance` locks a fresh copy of `h.lock` on every call).  The
+    skeletons identify a mutex by `Type.field`; an `acq` event of that identity is an acquisition of the one mutex the
+    instance owns only if the operand is not a copy — this fact is what makes `Conforms` meaningful for lock events.
+    The extractor drops such operations from the locksets (the rows they were meant to protect then fail
+    `repo_groups_ok`) and counts them here. -/
+theorem repo_no_copied_locks : Gen.copiedLockOps = 0 := by decide
+
 /-- every token of the table is a plain (assumed) token or a barrier token with its guard mutex -/
 theorem repo_tokens_covered :
     Gen.tokenIds.all (fun x => Gen.plainTokenIds.contains x || Gen.barrierTokens.any (fun p => p.1 == x)) = true := by
